@@ -37,6 +37,9 @@ class Prop(PropBase):
             cs.append(Case(tg.history(rng, rng.choice([2, 4, 8, 20]), sized=True, wild=True,
                                       ops_weights={"mv": 45, "we": 15, "ws": 5, "sv": 8, "rs": 8, "sz": 6, "er": 3, "dup": 10}),
                            tag="history-out-of-range-moves", oracle=False))
+        # correspondence only: glyphs with arbitrary (non-graphic) bytes - LF, NUL, ESC, C1 controls - and unconstructible colours
+        for i in range(400 if tier == "quick" else 6000):
+            cs.append(Case(tg.history(rng, rng.choice([2, 4, 8, 20]), graphic=False), tag="history-any-bytes", oracle=False))
         shc = ["%d %d %d %d 7 4" % (wv, e, r, z) for wv in range(3) for e in range(3) for r in range(6) for z in range(4)]
         for line, cf in tg.short_histories(3 if tier == "quick" else 4, shc):
             cs.append(Case(line, sweep="short-histories", cfgs=cf))
